@@ -132,7 +132,7 @@ def flo_script(case, acts):
     L.append("")
     L.append("  framer rd be active first %s" % case["frames"][0]["name"])
     for f in case["frames"]:
-        L.append("    frame %s" % f["name"])
+        L.append("    frame %s%s" % (f["name"], (" in " + f["over"]) if f.get("over") else ""))
         for g in f.get("guard", []):
             L.append("      let me if %s" % flo_guard(g))
         for ctx in ("enter", "recur", "exit"):
@@ -176,7 +176,7 @@ def drv_need(n):
 def drv_line(case):
     out = ["run"]
     out += drv_list(case["inits"], lambda init: drv_list(init, lambda kv: [kv[0], drv_val(kv[1])]))
-    out += drv_list(case["frames"], lambda f: [f["name"]]
+    out += drv_list(case["frames"], lambda f: [f["name"], ("=" + f["over"]) if f.get("over") else "-"]
                     + drv_list(f.get("guard", []), lambda g: ["1" if g[0] else "0", str(g[1]), g[2]])
                     + drv_list(f["enter"], drv_write)
                     + drv_list(f["recur"], drv_write) + drv_list(f["exit"], drv_write)
@@ -260,6 +260,33 @@ class Spec:
                 return False
         return True
 
+    def outline(self, a):
+        """the over frames from the top down to the frame, then its primary (first declared) under frames"""
+        frames = self.case["frames"]
+        over = lambda i: self.names.index(frames[i]["over"]) if frames[i].get("over") else None
+        head, f = [], a
+        while f is not None:
+            head.append(f)
+            f = over(f)
+        head.reverse()
+        f = a
+        while True:
+            unders = [j for j in range(len(frames)) if over(j) == f]
+            if not unders:
+                break
+            f = unders[0]
+            head.append(f)
+        return head
+
+    def exits_enters(self, actives, far):
+        """the active outline is left from the first frame that is the target itself or is not on the target's
+        outline; the target's outline is entered from there"""
+        fars = self.outline(far)
+        for i in range(min(len(actives), len(fars))):
+            if actives[i] == far or actives[i] != fars[i]:
+                return actives[i:], fars[i:]
+        return [], []
+
     def far(self, fi, t):
         if t["far"] == "me":
             return fi
@@ -271,6 +298,8 @@ class Spec:
 def bad_refs(case):
     names = [f["name"] for f in case["frames"]]
     for fi, f in enumerate(case["frames"]):
+        if f.get("over") and f["over"] not in names:
+            return True
         for t in f["trans"]:
             if t["far"] == "next":
                 if fi + 1 >= len(names):
@@ -302,34 +331,45 @@ def check_trace(case, line):
             sp.write(w, now)
         name, entered = toks[i][:-1], toks[i][-1] == "*"
         if i == 0:
-            sp.enter(0, now)
+            for fj in sp.outline(0):
+                sp.enter(fj, now)
             want_active, want_entered, why = 0, True, "start"
         else:
-            f = case["frames"][active]
+            actives = sp.outline(active)
             taken = None
-            for ti, tr in enumerate(f["trans"]):
-                # taken = conditions hold and the target frame lets the framer in; a transition that is
-                # only attempted resets nothing ("whenever a transition guarded by that mark is TAKEN")
-                if all(sp.holds(active, nd) for nd in tr["needs"]) and sp.admits(sp.far(active, tr)):
-                    taken = (ti, tr)
+            for home in actives:                      # the frames of the active outline, top down
+                f = case["frames"][home]
+                for ti, tr in enumerate(f["trans"]):
+                    # taken = conditions hold and every frame to be entered lets the framer in; a transition that
+                    # is only attempted resets nothing ("whenever a transition guarded by that mark is TAKEN")
+                    if not all(sp.holds(home, nd) for nd in tr["needs"]):
+                        continue
+                    exits, enters = sp.exits_enters(actives, sp.far(home, tr))
+                    if enters and all(sp.admits(fj) for fj in enters):
+                        taken = (home, ti, tr, exits, enters)
+                        break
+                if taken:
                     break
             if taken is None:
-                want_active, want_entered, why = active, False, "no transition of frame %s has its conditions true and is admitted by its target" % f["name"]
+                want_active, want_entered, why = active, False, "no transition of the outline of %s has its conditions true and is admitted" % sp.names[active]
             else:
-                ti, tr = taken
-                want_active, want_entered = sp.far(active, tr), True
-                why = "transition #%d of frame %s (%s) holds" % (ti, f["name"], " and ".join(flo_need(nd) for nd in tr["needs"]) or "unconditional")
+                home, ti, tr, exits, enters = taken
+                want_active, want_entered = sp.far(home, tr), True
+                why = "transition #%d of frame %s (%s) holds" % (ti, sp.names[home], " and ".join(flo_need(nd) for nd in tr["needs"]) or "unconditional")
                 for nd in tr["needs"]:
-                    sp.reset(active, nd, now, True)          # "whenever a transition guarded by that mark is taken"
-                for w in f["exit"]:
-                    sp.write(w, now)
-                sp.enter(want_active, now)
+                    sp.reset(home, nd, now, True)            # "whenever a transition guarded by that mark is taken"
+                for fj in reversed(exits):
+                    for w in case["frames"][fj]["exit"]:
+                        sp.write(w, now)
+                for fj in enters:                            # "the mark is set on entry to the named frame"
+                    sp.enter(fj, now)
         if (name, entered) != (sp.names[want_active], want_entered):
             return "tick %d: %s, so the reader should be in %s%s; implementation: %s" % (
                 i, why, sp.names[want_active], "*" if want_entered else ".", toks[i])
         active = want_active
-        for w in case["frames"][active]["recur"]:
-            sp.write(w, now)
+        for fj in sp.outline(active):
+            for w in case["frames"][fj]["recur"]:
+                sp.write(w, now)
         for w in t["wa"]:
             sp.write(w, now)
     return None
@@ -355,8 +395,8 @@ def gen_case(rng, tier):
     kinds = [rng.choice("VF") for _ in range(nsh)]
     fields = [FIELDS_V if k == "V" else FIELDS_F for k in kinds]
     inits = [[[f, gen_val(rng)] for f in fields[s]] for s in range(nsh)]
-    nfr = rng.choice([1, 2, 2, 3, 3, 4])
-    names = ["A", "B", "C", "D"][:nfr]
+    nfr = rng.choice([1, 2, 2, 3, 3, 4, 5])
+    names = ["A", "B", "C", "D", "E"][:nfr]
     nticks = rng.choice([3, 5, 8, 12])
     style = rng.choice(["upd", "upd", "chg", "mix", "mix"])
 
@@ -407,6 +447,17 @@ def gen_case(rng, tier):
                 guard.append([1 if rng.random() < 0.3 else 0, gs, rng.choice(fields[gs])])
         frames.append({"name": nm, "guard": guard, "enter": gen_writes(0.3), "recur": gen_writes(0.15, 1),
                        "exit": gen_writes(0.2, 1), "trans": trans})
+    if nfr > 1 and rng.random() < 0.5:
+        # nest the frames: the marks of an over frame are armed on entry to IT, not by moving among its unders
+        for fi in range(1, nfr):
+            if rng.random() < 0.6:
+                frames[fi]["over"] = names[rng.randrange(0, fi)]
+        # the first outline (frame 0 and its primary under frames) must be enterable at the start
+        f = 0
+        while f is not None:
+            frames[f]["guard"] = []
+            unders = [j for j in range(nfr) if frames[j].get("over") == names[f]]
+            f = unders[0] if unders else None
     dens = rng.choice([0.15, 0.35, 0.6])
     ticks = [{"wb": gen_writes(dens), "wa": gen_writes(dens)} for _ in range(nticks)]
     return {"period": rng.choice(["0.125", "1.0", "0.1", "0.5"]), "inits": inits, "frames": frames, "ticks": ticks}
@@ -433,8 +484,8 @@ class CHECK(core.Check):
     N_QUICK = 300
     N_THOROUGH = 12000
     N_SEARCH = 1500
-    RULE = ("programs: 1-2 shares (single 'value' field or fields a,b; all initialised), one reader framer of 1-4 flat "
-            "frames (a third of the later frames with 1-2 entry needs `let me if [not] field in share` on the same shares the "
+    RULE = ("programs: 1-2 shares (single 'value' field or fields a,b; all initialised), one reader framer of 1-5 frames (half of the programs nest them with `in`; "
+            "a third of the later frames with 1-2 entry needs `let me if [not] field in share` on the same shares the "
             "writers flip) with enter/recur/exit writes and 1-3 transitions each guarded by 0-2 marker needs (updated/changed, "
             "optional not, optional 'in frame [me|name]', optional 'by marker' incl. a marker equal to a frame name), "
             "a writer framer before and one after the reader in the tick order with random writes per tick (put = "
@@ -447,7 +498,7 @@ class CHECK(core.Check):
                "time is modelled by the tick index: the code only compares stamps copied from store.stamp",
                "literal conversion of the FloScript values (C17), Data/odict field storage (C19), the frame machinery "
                "outside a flat single framer (C05-C08)"]
-    PARTIAL = ["model covers one flat reader framer (no nested frames, no auxiliaries, no conditional aux tracts, "
+    PARTIAL = ["model covers one reader framer with nested frames (outline, ExEn; no auxiliaries, no conditional aux tracts, "
                "no marker needs in beacts); NaN field values are outside PyVal"]
     TECHNIQUE = "Lean 4 theorems over all histories (induction on event lists) + differential correspondence on generated FloScript programs"
     LEVEL_TEXT = ("Full proof on the model, history form, all histories: C20_updated_iff ('is updated' after any time-ordered "
@@ -519,7 +570,9 @@ class CHECK(core.Check):
         shared = any(nd["by"] for f in case["frames"] for t in f["trans"] for nd in t["needs"])
         named = any(nd["cl"] != "-" for f in case["frames"] for t in f["trans"] for nd in t["needs"])
         guarded = any(f.get("guard") for f in case["frames"])
-        return "%s%s%s%s" % (k, ",by" if shared else "", ",in-frame" if named else "", ",entry-guard" if guarded else "")
+        nested = any(f.get("over") for f in case["frames"])
+        return "%s%s%s%s%s" % (k, ",by" if shared else "", ",in-frame" if named else "", ",entry-guard" if guarded else "",
+                               ",nested" if nested else "")
 
     def shrink_candidates(self, case):
         def clone():
@@ -532,6 +585,8 @@ class CHECK(core.Check):
                 for j in range(len(case["ticks"][i][key])):
                     c = clone(); del c["ticks"][i][key][j]; yield c
         for fi, f in enumerate(case["frames"]):
+            if f.get("over"):
+                c = clone(); c["frames"][fi]["over"] = None; yield c
             for j in range(len(f.get("guard", []))):
                 c = clone(); del c["frames"][fi]["guard"][j]; yield c
             for ctx in ("enter", "recur", "exit"):
@@ -611,4 +666,23 @@ def exhaustive_cases(tier):
                         {"name": "C", "guard": [], "enter": [], "recur": [], "exit": [], "trans": [{"far": "=A", "needs": []}]}]
                     out.append({"period": "0.125", "inits": [[["value", ["I", 0]]]], "frames": frames, "ticks": ticks,
                                 "origin": "exhaustive"})
+    # nested: over frame O with unders A and B that hand over every tick; O (or A) carries the need naming O / A / B
+    for k in kinds:
+        for home in ("O", "A"):
+            for cl in ("-", "=O", "=A", "=B", "bare"):
+                for by in bys:
+                    for combo in [()] + [(p,) for p in places]:
+                        ticks = [{"wb": [], "wa": []} for _ in range(nt + 1)]
+                        for n_, (i, sl) in enumerate(combo):
+                            ticks[i][sl].append(["P", 0, [["value", ["I", n_ + 1]]]])
+                        nd = {"k": k, "neg": 0, "s": 0, "cl": cl, "by": by}
+                        tz = {"far": "=Z", "needs": [nd]}
+                        frames = [
+                            {"name": "O", "guard": [], "enter": [], "recur": [], "exit": [], "trans": [tz] if home == "O" else []},
+                            {"name": "A", "over": "O", "guard": [], "enter": [], "recur": [], "exit": [],
+                             "trans": ([tz] if home == "A" else []) + [{"far": "=B", "needs": []}]},
+                            {"name": "B", "over": "O", "guard": [], "enter": [], "recur": [], "exit": [], "trans": [{"far": "=A", "needs": []}]},
+                            {"name": "Z", "guard": [], "enter": [], "recur": [], "exit": [], "trans": [{"far": "=O", "needs": []}]}]
+                        out.append({"period": "0.125", "inits": [[["value", ["I", 0]]]], "frames": frames, "ticks": ticks,
+                                    "origin": "exhaustive"})
     return out
